@@ -17,7 +17,7 @@ if ! git -C $M apply "$patch" 2>/tmp/apply.err; then
   git -C $M reset -q
 fi
 trap 'git -C $M checkout -q -- . ' EXIT
-cd /verif
+cd "$(dirname "$(readlink -f "$0")")/.."
 for p in "$@"; do
   out=$(VERIF_REPO=$M VERIF_NOEVIDENCE=1 timeout 1800 ./check $p --tier ${TIER:-quick} 2>&1)
   rc=$?
